@@ -46,6 +46,28 @@ const maxRune = 0x10FFFF
 
 // constrain applies one rendered comparison over variable v with the given truth.
 func constrain(set []ivl, cond string, truth bool, v string) ([]ivl, bool) {
+	if cm := reCall.FindStringSubmatch(cond); cm != nil && cm[2] == v {
+		// membership in a written-out set of runes
+		if members, ok := membershipSet(cm[1]); ok {
+			var ks []int64
+			for k := range members {
+				ks = append(ks, k)
+			}
+			sort.Slice(ks, func(i, j int) bool { return ks[i] < ks[j] })
+			var out []ivl
+			if truth {
+				for _, k := range ks {
+					out = append(out, intersect(set, k, k)...)
+				}
+				return out, true
+			}
+			out = set
+			for _, k := range ks {
+				out = append(intersect(out, -1<<40, k-1), intersect(out, k+1, 1<<40)...)
+			}
+			return out, true
+		}
+	}
 	mm := reCmp.FindStringSubmatch(cond)
 	if mm == nil {
 		return set, false
@@ -147,9 +169,26 @@ func acceptedSet(p *Prog, fn *ssa.Function) ([]ivl, bool, string) {
 	return out, true, ""
 }
 
+// ivlNormal: sorted, with touching and overlapping pieces merged.
+func ivlNormal(s []ivl) []ivl {
+	acc := append([]ivl(nil), s...)
+	sort.Slice(acc, func(i, j int) bool { return acc[i].lo < acc[j].lo })
+	var out []ivl
+	for _, x := range acc {
+		if len(out) > 0 && x.lo <= out[len(out)-1].hi+1 {
+			if x.hi > out[len(out)-1].hi {
+				out[len(out)-1].hi = x.hi
+			}
+		} else {
+			out = append(out, x)
+		}
+	}
+	return out
+}
+
 func ivlString(s []ivl) string {
 	var parts []string
-	for _, x := range s {
+	for _, x := range ivlNormal(s) {
 		parts = append(parts, fmt.Sprintf("U+%04X–U+%04X", x.lo, x.hi))
 	}
 	return strings.Join(parts, " ∪ ")
